@@ -30,7 +30,7 @@ type c02Case struct {
 	// Ambient: the host process itself carries a PLUGIN_PROTOCOL_VERSIONS value (a host that is a
 	// plugin of some outer host); the list this client offers must still be the one that counts
 	Ambient string `json:"ambient,omitempty"`
-	Launch  string  `json:"launch"`   // runner | cmd
+	Launch  string `json:"launch"` // runner | cmd
 }
 
 func (s c02Side) sets() map[int]string {
